@@ -288,10 +288,9 @@ impl FileSystem for MemoryFS {
 
     fn remove_file(&self, path: &str) -> VfsResult<()> {
         let mut handle = self.handle.write().unwrap();
-        handle
-            .files
-            .remove(path)
-            .ok_or(VfsErrorKind::FileNotFound)?;
+        let file = handle.files.get(path).ok_or(VfsErrorKind::FileNotFound)?;
+        ensure_file(file)?;
+        handle.files.remove(path);
         Ok(())
     }
 
